@@ -26,4 +26,25 @@ Prng(key, n) == PrngGo(key, n, 0, <<>>)
 Key(tag, nums) == StrToUtf8(tag) \o Concat([i \in 1..Len(nums) |-> <<255>> \o BnFromNat(nums[i])])
 \* uniform-ish natural below m (m < 2^23) from a key
 PrngNat(key, m) == LET b == Prng(key, 3) IN (b[1] * 65536 + b[2] * 256 + b[3]) % m
+\* ---- characters to put into a digit position -------------------------------------------------------
+\* every character U+0001..U+00FF, and for the significant ASCII characters of the textual grammars (digits, hex
+\* letters, x, m, /, ', +, -) the code points that ALIAS them when a code point is truncated to 8 or 16 bits:
+\* c + 256 k (k = 1..4), c + 65536, c + 65536 + 256
+SignificantAscii == <<48, 49, 50, 51, 52, 53, 54, 55, 56, 57, 97, 98, 99, 100, 101, 102, 65, 66, 67, 68, 69, 70, 120, 88, 109, 47, 39, 43, 45, 32>>
+AliasOffsets == <<256, 512, 768, 1024, 65536, 65792>>
+\* ... and the typographic / compatibility LOOK-ALIKES of those characters: curly and modifier apostrophes, primes,
+\* division and fraction slashes, dashes and minus signs, multiplication sign, full-width forms, the decimal digits of
+\* other scripts and of the mathematical alphabets
+Confusables ==
+  <<8217, 8216, 700, 697, 8242, 65287, 180, 96, 8260, 8725, 65295, 10744, 8208, 8209, 8210, 8211, 8212, 8722, 65293, 65291, 215, 65368, 65336, 65357,
+    12288, 160>>
+  \o [i \in 1..10 |-> 65295 + i] \o [i \in 1..10 |-> 1631 + i] \o [i \in 1..10 |-> 1775 + i] \o [i \in 1..10 |-> 2405 + i]
+  \o [i \in 1..10 |-> 120781 + i] \o [i \in 1..10 |-> 120821 + i] \o [i \in 1..6 |-> 65344 + i] \o [i \in 1..6 |-> 65312 + i]
+NAliasChars == Len(SignificantAscii) * Len(AliasOffsets)
+NTryChars == 255 + NAliasChars + Len(Confusables)
+TryChar(k) ==          \* k in 1..NTryChars
+  IF k <= 255 THEN k
+  ELSE IF k <= 255 + NAliasChars
+    THEN SignificantAscii[1 + ((k - 256) \div Len(AliasOffsets))] + AliasOffsets[1 + ((k - 256) % Len(AliasOffsets))]
+  ELSE Confusables[k - 255 - NAliasChars]
 =============================================================================
